@@ -54,6 +54,14 @@ def cases(tier, variants):
         for ftol in (0.0, 1e-5, 1e-2):
             for tgt in (None, "reach"):
                 yield dict(b, part="ident", ftol=ftol, tgt=tgt)
+        # unrelated options that must not leak into the filtering of the history: the
+        # finite-difference step `eps` (unused with a callable gradient)
+        yield dict(b, part="ident", ftol=0.0, tgt=None, fdeps=0.5)
+        # a non-default curvature threshold eps_SY must be honoured by the filter
+        for k in (3, 5):
+            for rw in ("scale5", "w5"):
+                for es in (0.004, 0.02):
+                    yield dict(b, part="rw", k=k, rw=rw, eps_sy=es)
         # the same with a gradient scaler in use (the target is then tested on f/s)
         yield dict(b, part="ident", ftol=0.0, tgt="reach", scaler=0.37)
         yield dict(b, part="ident", ftol=1e-5, tgt="reach", scaler=8.0)
@@ -133,6 +141,8 @@ def run(case):
                 tgt = 0.5 * (vals[2] + vals[3])
         if case.get("scaler"):
             kw = dict(kw, gradient_scaler=(lambda *a_, _s=case["scaler"]: _s))
+        if case.get("fdeps"):
+            kw = dict(kw, eps=case["fdeps"])
         o1 = F.Obs(fun, jac, p.lb, p.ub)
         s1 = []
         a = minimize_lbfgsb(x0=p.x0.copy(), fun=o1.fun, jac=o1.jac, ftol=case["ftol"],
@@ -163,6 +173,9 @@ def run(case):
                     nontrivial=core.case_hash(case) if ncall[0] >= 2 else None)
     # ----- rewrite at update call k
     k = case["k"]
+    EPS_ = case.get("eps_sy", EPS)
+    if case.get("eps_sy"):
+        kw = dict(kw, eps_SY=case["eps_sy"])
     calls = [0]
     rec = {}
     glog = {}
@@ -257,9 +270,9 @@ def run(case):
     for si, s in enumerate(states[first:] + [res]):
         sk, yk = s.hess_inv.sk, s.hess_inv.yk
         for a, b in zip(sk, yk):
-            if not float(a @ b) > EPS * float(b @ b):
+            if not float(a @ b) > EPS_ * float(b @ b):
                 viol.append(V("pair_without_curvature_after_rewrite", state=first + si,
-                              sy=float(a @ b)))
+                              sy=float(a @ b), yy=float(b @ b), eps=EPS_))
                 break
         ch = chain_ok(pts, grs, sk, yk)
         if ch is None:
